@@ -71,3 +71,21 @@ def net_registration(C, o, which, key):
         elif name in ('clear', 'drain', 'retain'):
             state = 'dropped'
     return state
+
+
+def never_taken(L, I, node):
+    """The analysis shows that `node` (a site of the loop body L that lies on no enumerated path of its arm) sits in a branch that
+    is taken on no path: some enclosing `if` / `match` was evaluated by the interpreter I - on every path that reaches it - without
+    ever entering the branch the node is in.  The interpreter skips a branch only when the test is decided (a literal, a pattern
+    that cannot match the constructor at hand - `if let Some(x) = None` -, an atom the path condition already fixes); whatever it
+    cannot decide it forks on.  So this is "dead on every path", not "not looked at": when no enclosing construct was evaluated at
+    all (code behind a loop bound, behind a panic) the answer is False and the caller fails closed."""
+    for anc, role in reversed(L.context(node)):
+        br = None
+        if anc['k'] == 'If' and role in ('then', 'els'):
+            br = anc.get(role)
+        elif anc['k'] == 'Match' and isinstance(role, tuple) and role[0] == 'arms' and role[-1] == 'body':
+            br = anc['arms'][role[1]]['body']
+        if br is not None and id(anc) in I.visited:
+            return id(br) not in I.visited
+    return False
